@@ -95,7 +95,7 @@ Next ==
              /\ viol' = viol \cup (IF ev.leak > 0 THEN {V(ev, {"C18"}, "memory allocated by the LU component is still unreleased after the factor work was freed and the library shut down (LeakSanitizer)")} ELSE {})
              /\ UNCHANGED <<M, valid, rep, known, rounds>>
           ELSE IF ev.call = "CRASH" THEN
-             /\ viol' = viol \cup {V(ev, {"C13", "C17"}, "the component crashed or did not return: " \o ev.what)}
+             /\ viol' = viol \cup {V(ev, {"C13", "C17"}, "the component crashed or did not return: " \o (IF "why" \in DOMAIN ev THEN ev.why ELSE "crash"))}
              /\ M' = NoM /\ valid' = FALSE /\ known' = "" /\ rounds' = 0 /\ UNCHANGED rep
           ELSE
              /\ viol' = viol /\ UNCHANGED <<M, valid, rep, known, rounds>>
